@@ -22,6 +22,7 @@ recorded qr validated against the contract the theorems assume.
 from __future__ import annotations
 
 import json
+import sys
 import math
 from fractions import Fraction
 from unittest import mock
@@ -81,6 +82,8 @@ QR_TOL = 1e-9           # qr contract validation: ||q^H q - 1||_max, ||q r - m||
 MACHINE_TOL = 1e-10     # tensor-level machine vs real factors, entrywise relative to max(1, |entry|max) (spread ~1e-14)
 EIGH_LIMIT = 1536       # largest Gram matrix a history may hand to eigh (clean tree: <= 3 * 3 * 64 = 576); beyond it the
                         # history is stopped (`Blowup`): a LAPACK call of that size cannot be interrupted by SIGALRM
+DENSE_MAX = 4096        # dense (state-vector) reference of a history's state is built when dim**n <= DENSE_MAX
+SCHMIDT_RTOL = 1e-11    # true (dense) discarded weight vs eigh-tape weight, relative to ||psi||^2 (clean-tree spread ~1e-16)
 CASE_BUDGET_S = 20.0    # wall-clock budget of one history (clean tree: < 0.5 s); checked between operations
 DRIVER_TIMEOUT_S = 600  # every driver call (clean tree: < 10 s)
 
@@ -551,18 +554,63 @@ def iso_defects(f):
     return dl, dr
 
 
+def dense_state(factors):
+    """State vector of a list of (chi_l, d, chi_r) factors (small systems only)."""
+    import torch
+    acc = factors[0]
+    for f in factors[1:]:
+        acc = torch.tensordot(acc, f.to(acc.device), dims=([-1], [0]))
+    return acc.reshape(-1)
+
+
+def schmidt_factors(rng, n, dim, gen, precision):
+    """Mixed-canonical MPS (bond 2 everywhere) whose Schmidt values at bond b|b+1 are exactly (s0, s1) with
+    s1^2 = t * precision^2, t log-uniform in [1/16, 2]: left-orthonormal random tensors up to b, right-orthonormal
+    after it, diag(s) absorbed into factor b. Returns (factors, b, t)."""
+    import torch
+    b = rng.randrange(n - 1)
+    t = 2.0 ** rng.uniform(-4, 1)
+    s1 = math.sqrt(t) * precision
+    s0 = math.sqrt(max(1.0 - s1 * s1, 0.25)) * rng.choice([1.0, 1.0, 0.5, 2.0])
+    bonds = [1] + [2] * (n - 1) + [1]
+    fs = []
+    for i in range(n):
+        a, c = bonds[i], bonds[i + 1]
+        f = torch.randn(a, dim, c, dtype=torch.complex128, generator=gen)
+        if i <= b:
+            q, _ = torch.linalg.qr(f.reshape(a * dim, c))
+            f = q.reshape(a, dim, c)
+        else:
+            q, _ = torch.linalg.qr(f.reshape(a, dim * c).mT)
+            f = q.mT.reshape(a, dim, c)
+        fs.append(f.contiguous())
+    fs[b] = (fs[b] * torch.tensor([s0, s1], dtype=torch.complex128)).contiguous()
+    return fs, b, t
+
+
 def gen_history(rng, tier):
     n = rng.choice([2, 2, 3, 3, 4, 5, 6, 7, 8, 9, 10])
     dim = rng.choice([2, 2, 3])
     precision = 10 ** rng.uniform(-12, -2)
     cap = rng.choice([1, 1, 2, 2, 3, 4, 5, 8, 16, 32, 64, rng.randint(1, 64)])
     bmax = rng.choice([1, 2, 4, 8, 16, 32]) if n <= 6 else rng.choice([1, 2, 4, 8, 16])
-    init = rng.choice(["fresh", "fresh", "make", "state", "state"])
+    init = rng.choice(["fresh", "fresh", "make", "state", "state", "schmidt"])
     nops = rng.randint(1, 14 if tier == "quick" else 30)
     ops = []
+    if init == "schmidt":
+        # a state with one Schmidt weight tuned to t * precision^2 (t in [1/16, 2]) at a chosen bond, both operands
+        # of a sum re-centred on the same site (incl. sites >= 1), overlapping summands (psi + psi, psi + z psi),
+        # then truncate(): the regime where a mis-estimated spectrum flips the keep/discard decision.
+        n = rng.choice([2, 3, 3, 4, 5, 6])
+        precision = 10 ** rng.uniform(-6, -2)
+        cap = rng.choice([4, 8, 16, 64])
+        c = rng.randrange(n)
+        ops = rng.choice([[f"o{c}", "A", "t"], [f"o{c}", "A"], ["A", "t"], [f"o{c}", "A", f"o{rng.randrange(n)}", "A"],
+                          [f"o{c}", "s", "A", "t"]])
+        nops = rng.randint(0, 4)
     for _ in range(nops):
         k = rng.randrange(n) if rng.random() < 0.97 else rng.choice([n, n + 1, n + 7])
-        o = rng.choice(["o", "o", "o", "t", "t", "a", "a", "s", "s", "p", "p", "z", "e", "n", "i", "c", "m", "y"])
+        o = rng.choice(["o", "o", "o", "t", "t", "a", "a", "s", "s", "p", "p", "z", "e", "n", "i", "c", "m", "y", "A"])
         ops.append(o + (str(k) if o in "opy" else ""))
     return dict(n=n, dim=dim, precision=precision, cap=cap, bmax=bmax, init=init, ops=ops,
                 seed=rng.randrange(2 ** 31))
@@ -587,6 +635,10 @@ def run_history(case, rep=None):
     elif case["init"] == "fresh":
         cur = MPS(rand_factors(rng, n, dim, case["bmax"], gen), orthogonality_center=None, **kw)
         init = "fresh"
+    elif case["init"] == "schmidt":
+        fs, b0, _t = schmidt_factors(rng, n, dim, gen, case["precision"])
+        cur = MPS(fs, orthogonality_center=b0, **kw)
+        init = f"{b0}:" + "L" * b0 + "U" + "R" * (n - 1 - b0)
     else:
         centre = rng.choice([None] + list(range(n)))
         fs, flags = flagged_factors(rng, n, dim, case["bmax"], gen, centre)
@@ -596,6 +648,8 @@ def run_history(case, rep=None):
         true_start = centre is None or (all(f == "L" for f in flags[:centre]) and all(f == "R" for f in flags[centre + 1:]))
     if case["init"] != "state":
         true_start = True
+    dense_ok = dim ** n <= DENSE_MAX
+    broke = []                                # model-free consistency breaks (reported as broken correspondence)
     steps = []
     degenerate = False
     done_ops = []
@@ -607,6 +661,9 @@ def run_history(case, rep=None):
             break
         premise_broken = False               # a bond above the cap / inconsistent shapes: stop, later ops assume them
         o, k = op[0], (int(op[1:]) if len(op) > 1 else None)
+        overlap = o == "A"                    # "A" = `+` with an overlapping operand (psi or z*psi, same declared centre)
+        if overlap:
+            o = "a"
         if o == "m":
             # `sample` presumes a normalised state; torch.multinomial rejects weights that vanish or underflow.
             # Sampling is only exercised when the norm is unremarkable (checked without touching the state).
@@ -620,8 +677,14 @@ def run_history(case, rep=None):
         splits = []
         orig_split = U.split_matrix
 
+        dense_seq = []                         # dense state right before every split of a `truncate_impl` sweep
+
         def split_rec(m, *a, **kws):
             n0 = len(tape.calls)
+            if dense_ok and true_start:
+                fr = sys._getframe(1)          # the caller is `truncate_impl(factors, …)`: read its working list
+                facs = fr.f_locals.get("factors") if fr.f_code.co_name == "truncate_impl" else None
+                dense_seq.append(dense_state(facs).clone() if facs is not None else None)
             l, r = orig_split(m, *a, **kws)
             splits.append((m.detach().clone(), l.detach().clone(), r.detach().clone(), kws, n0))
             return l, r
@@ -635,7 +698,13 @@ def run_history(case, rep=None):
                     cur.truncate()
                 elif o == "a":
                     w = rng.random()
-                    if w < 0.2:
+                    if overlap:
+                        if w < 0.5:
+                            other = cur
+                        else:                # z * psi keeps psi's declared centre
+                            z = rng.choice([1.0, 0.5, 2.0, -0.5, rng.uniform(0.2, 3.0), complex(rng.uniform(0.2, 2), rng.uniform(-1, 1))])
+                            other = z * cur
+                    elif w < 0.2:
                         other = cur
                     elif w < 0.3:
                         other = MPS.make(n, num_gpus_to_use=0, eigenstates=list(eig))
@@ -737,6 +806,32 @@ def run_history(case, rep=None):
                 if sw["kept"] != st["bonds"][:-1][::-1]:
                     fails.append((f"{op!r}: kept ranks {sw['kept']} are not the new bond dimensions {st['bonds']}", len(done_ops)))
             sweeps.append(sw)
+            if dense_seq and all(v is not None for v in dense_seq) and len(dense_seq) == len(splits) \
+                    and not any(x != x for d_ in sw["ds"] for x in d_):
+                # DENSE REFERENCE, bond by bond: psi_k = state right before the k-th split, psi_{k+1} right after
+                # it (= before the next one / the final state). ||psi_k - psi_{k+1}||^2 is the weight *really*
+                # discarded at that bond. (i) it must be <= precision^2 unless the cap binds — the property, judged
+                # on the state itself and not on the spectrum the code looked at; (ii) it must equal the weight
+                # the eigh tape says was discarded: the spectrum of m^H m is the Schmidt spectrum only in
+                # canonical form. Rounding: elementwise 1e-16 ||psi|| -> allowance SCHMIDT_RTOL * ||psi||^2.
+                seq = dense_seq + [dense_state(cur.factors)]
+                sc2 = max(float((v.abs() ** 2).sum()) for v in seq)
+                if terms:
+                    sc2 += sum(float((dense_state(t_).abs() ** 2).sum()) for t_ in terms)
+                for kk, (d_, k_) in enumerate(zip(sw["ds"], sw["kept"])):
+                    w_true = float(((seq[kk] - seq[kk + 1]).abs() ** 2).sum())
+                    w_tape = max(seq_sum(d_[:len(d_) - k_]), 0.0)
+                    bond = f"{n - 2 - kk}|{n - 1 - kk}" if len(splits) == n - 1 else f"#{kk}"
+                    st.setdefault("schmidt_dev", []).append(abs(w_true - w_tape) / max(sc2, 1e-300))
+                    if k_ < before_cap and w_true > before_prec * before_prec * (1 + 1e-6) + SCHMIDT_RTOL * sc2:
+                        fails.append((f"{op!r}: weight discarded at bond {bond} is {w_true!r} (dense reference: ||psi_before - psi_after||^2 "
+                                      f"of that split) > precision^2 = {before_prec * before_prec!r} although the cap does not bind "
+                                      f"(kept {k_} < max_bond_dim {before_cap}); the spectrum the code cut on says {w_tape!r}",
+                                      len(done_ops)))
+                    elif abs(w_true - w_tape) > SCHMIDT_RTOL * sc2:
+                        broke.append(f"{op!r} bond {bond}: eigh-tape discarded weight {w_tape!r} is not the weight really discarded "
+                                     f"{w_true!r} (dense reference, ||psi||^2 ~ {sc2!r}): the sweep cut on a spectrum that is not "
+                                     f"the Schmidt spectrum (non-canonical form)")
             if terms and true_start and not any(x != x for d_ in sw["ds"] for x in d_):
                 # global contract of the sweep: in canonical form each split removes exactly its discarded
                 # weight, so ||psi - psi'|| <= sum_i sqrt(w_i) (triangle inequality over the n-1 splits).
@@ -757,7 +852,7 @@ def run_history(case, rep=None):
         if premise_broken:
             stopped = "premise-broken"
             break
-    return dict(init=init, steps=steps, fails=fails, sweeps=sweeps, ops=done_ops, stopped=stopped)
+    return dict(init=init, steps=steps, fails=fails, sweeps=sweeps, ops=done_ops, stopped=stopped, broke=broke)
 
 
 def _case_ser(case):
@@ -823,7 +918,9 @@ def history_correspondence(rep: Report, rng, n: int, tier: str, batch=None) -> N
             rep.fail(msg, {"kind": "history", **_case_ser(case), "upto": upto})
         if res.get("stopped"):
             rep.hist("histories_stopped", res["stopped"])
-        lines.append(f"canon.run {case['n']} {res['init']} " + " ".join(res["ops"]) if res["ops"] else f"canon.run {case['n']} {res['init']}")
+        for msg in res.get("broke", [])[:2]:
+            rep.broke(f"history seed={case['seed']} n={case['n']} dim={case['dim']} init={res['init']} ops={' '.join(res['ops'])}: {msg}")
+        lines.append((f"canon.run {case['n']} {res['init']} " + " ".join(res["ops"]).replace("A", "a")) if res["ops"] else f"canon.run {case['n']} {res['init']}")
         for sw in res["sweeps"]:
             size = sum(len(d) for d in sw["ds"])
             if size > 400 and rng.random() < (0.75 if tier == "quick" else 0.5):
@@ -1357,7 +1454,7 @@ def check(rep: Report, tier: str, seed: int) -> None:
                 "with designed spectra, max_rank in {-1,0,1..1024}, both orth_center_right, preserve_norm, plus rectangular (tall and "
                 "wide, aspect >= 2) full-rank matrices with max_rank uniform in 1..min(shape) so that the cap binds while the Gram "
                 "matrix is the larger one. (b) histories: 2-10 "
-                "sites, qubits/qutrits, bond<=32, precision 1e-12..1e-2, max_bond_dim 1..64, init in {fresh None, MPS.make, "
+                "sites, qubits/qutrits, bond<=32, precision 1e-12..1e-2, max_bond_dim 1..64, init in {fresh None, MPS.make, mixed-canonical state with a Schmidt weight tuned to t*precision^2 (t in [1/16,2]) followed by psi+psi / psi+z*psi on equal declared centres and truncate (dense per-bond reference of the discarded weight), "
                 "arbitrary flagged state incl. false claims}, ops orthogonalize/truncate/+/scalar*/apply/apply_to/expect_batch/"
                 "norm/inner/get_correlation_matrix/sample/entanglement_entropy incl. out-of-range sites. (c) real TDVP runs "
                 "with _evolve interposed. (d) bridge: truncate_impl on Gaussian-integer chains (2-6 sites, bond<=6) with exact "
@@ -1453,10 +1550,22 @@ def search(rep: Report, seed: int, n: int) -> None:
         _cutoff_contract_fail(rep, eps, d, o)
         if rep.failing:
             return
+    # tuned near-threshold sums first (dense reference per bond inside run_history): equal declared centres,
+    # overlapping summands, a Schmidt weight within a factor 16 of precision^2
+    for _ in range(n):
+        case = gen_history(rng, "quick")
+        while case["init"] != "schmidt":
+            case = gen_history(rng, "quick")
+        res = run_history(case)
+        for msg, upto in res["fails"]:
+            rep.fail(msg, {"kind": "history", **_case_ser(case), "upto": upto})
+        if rep.failing:
+            return
     for _ in range(n):
         case = gen_history(rng, "thorough")
-        case["cap"] = rng.choice([1, 2, 3, case["cap"]])
-        case["ops"] = [rng.choice(["t", "a", "a", "z", o]) for o in case["ops"]]
+        if case["init"] != "schmidt":
+            case["cap"] = rng.choice([1, 2, 3, case["cap"]])
+            case["ops"] = [rng.choice(["t", "a", "a", "z", o]) for o in case["ops"]]
         res = run_history(case)
         for msg, upto in res["fails"]:
             rep.fail(msg, {"kind": "history", **_case_ser(case), "upto": upto})
@@ -1508,7 +1617,7 @@ def replay(rep: Report, path: str) -> int:
             msgs = [m for m, _ in res["fails"]]
             if not msgs and res["steps"]:
                 # re-judge against the model
-                line = f"canon.run {case['n']} {res['init']} " + " ".join(res["ops"])
+                line = f"canon.run {case['n']} {res['init']} " + " ".join(res["ops"]).replace("A", "a")
                 mo = Driver().batch([line], timeout=DRIVER_TIMEOUT_S)[0]
                 msgs = [m for k, m in judge_history(Report("C10", "replay", 0), case, res, mo.split(",")) if k == "prop"]
             msg = msgs[0] if msgs else None
